@@ -15,6 +15,14 @@ def ls(prop, q=300, t=4000, shards_q=4, shards_t=16, flavors=None):
     return dict(engine="lockstep", shards=dict(quick=shards_q, thorough=shards_t), args=args)
 
 
+def ga(q=1, t=6, shards_q=4, shards_t=16):
+    return dict(engine="gated", shards=dict(quick=shards_q, thorough=shards_t), args=["--quick-n", str(q), "--thorough-n", str(t)])
+
+
+GA = "gated: for every pair (yield point inside a critical window: 11 on the processor, 5 on a client) x (racing operation: clear, remove/update/look-up of the same key, insert/remove of another key, in-place write, tick, wait) " \
+     "the thread is parked at the point on the real code while the racing operation runs to completion (or is seen to wait for the parked thread), then the history is quiesced and judged; quick: a third of the pairs per flavour, thorough: all pairs x 4 flavours x 6 seeds"
+
+
 def ho(prop, q=40, t=600, shards_q=4, shards_t=16, flavors=None):
     args = ["--quick-n", str(q), "--thorough-n", str(t)]
     if flavors:
@@ -36,12 +44,12 @@ PLAN = {
         assumptions=["equalities are decided on histories whose true sum of charges fits in i64 (beyond that an i64 total has no defined answer); costs near i64::MAX are used for survival and oversize clauses"],
     ),
     "C02": dict(
-        stages=[ho("C02", q=60), ls("C02")],
-        rule=HO + " || " + LS,
+        stages=[ho("C02", q=60), ls("C02"), ga()],
+        rule=HO + " || " + LS + " || " + GA,
         clauses=["R1 returned value carries the looked-up key", "R2 written by an insert that returned true or an in-place write, not from the future",
                  "R3a no value written before a remove that was applied (later wait() Ok, no clear overlapping)", "R3a' removal of an observably resident value is immediate",
                  "R3b no value written before a clear() that returned before the look-up began", "R4 an update still resident at the end is returned by every look-up after it",
-                 "never a value already handed to a callback", "R5 (lockstep) exactly the last value written; update path taken inside the call"],
+                 "never a value already handed to a callback", "R5 (lockstep) exactly the last value written; update path taken inside the call", "gated: with the processor parked, an update-path insert is visible to the next look-up and a removed value is not"],
         minimum=dict(quick=dict(ho_c02_lookups_checked=20000, ho_c02_r3_candidates=5000, ls_histories=200)),
         assumptions=["registers are not linearizable by design (a new key becomes visible asynchronously): the clauses above are what the statement promises"],
     ),
@@ -68,8 +76,8 @@ PLAN = {
         assumptions=["ticks are delivered (never skipped) at phase + n*interval of the virtual clock"],
     ),
     "C06": dict(
-        stages=[ho("C06", q=60), ls("C06")],
-        rule=HO + "; histories in which a call returned Err are excluded (the statement's exemption) and counted",
+        stages=[ho("C06", q=60), ls("C06"), ga()],
+        rule=GA + " || " + HO + "; histories in which a call returned Err are excluded (the statement's exemption) and counted",
         clauses=["keys(store) == keys(policy) at the quiescent end", "len() == number of resident entries", "same invariant after every lockstep step"],
         minimum=dict(quick=dict(ho_c06_evaluations=60, ho_evictions_and_expiries=2000, ls_histories=200)),
         assumptions=["quiescent = clients joined, wait() Ok, tick handled, wait() Ok, hook counters stable across the snapshot"],
@@ -89,8 +97,8 @@ PLAN = {
         assumptions=["policy worker drained (kept == applied) before each add, so estimates are stable while the oracle reads them"],
     ),
     "C08": dict(
-        stages=[ho("C08", q=60), ls("C08")],
-        rule=HO + " || " + LS,
+        stages=[ho("C08", q=60), ls("C08"), ga()],
+        rule=HO + " || " + LS + " || " + GA,
         clauses=["every accepted value: exactly one of {resident, on_exit, on_evict, on_reject, overwritten in place}", "none of them only if dropped inside a clear()/close() call",
                  "never two", "no look-up returns a value after its callback", "no value leaked after the cache and its workers are gone", "lockstep: callback kind matches the cause"],
         minimum=dict(quick=dict(ho_c08_values_accounted=20000, ho_callbacks=10000, ls_histories=200)),
@@ -115,8 +123,8 @@ PLAN = {
         assumptions=["several writes to one key between two barriers are applied out of program order by design (updates at once, queued removes and first inserts later)"],
     ),
     "C11": dict(
-        stages=[ls("C11", q=400), ho("C11", q=60)],
-        rule=LS + " || " + HO,
+        stages=[ls("C11", q=400), ho("C11", q=60), ga()],
+        rule=LS + " || " + HO + " || " + GA,
         clauses=["after clear(): every key absent, len 0, used 0, counters zero, histogram empty", "afterwards exactly the fresh-cache model, incl. keys re-used with another TTL or none across their old expiry seconds",
                  "concurrent: nothing written before a completed clear() is returned afterwards; barrier clauses for inserts begun after clear() returned"],
         minimum=dict(quick=dict(ls_clears=1000, ho_op_clear=300)),
